@@ -9,6 +9,12 @@ V = os.path.dirname(os.path.dirname(os.path.abspath(__file__)))
 BASELINE = ("cd /repo && /venv/bin/python -m pytest -ra -q -p no:cacheprovider --timeout=900 "
             "--continue-on-collection-errors")
 
+BOUNDED = ("BOUNDED CLAIM: the source is interpreted by the checker's own evaluator (symmray is never imported or run) over an abstract "
+           "domain in which block contents are opaque shaped tokens and index tables, sectors, sign tables and labels range over an "
+           "enumerated family (listed in the evidence); the verdict holds for that family, for every value of the block contents.")
+PARTIAL_NOTE = (" PARTIAL CLAIM: decides the named structural clauses (necessary conditions of the property) for all paths / call "
+                "sites; the behavioural property itself quantifies over runtime values and is not decided by this technique.")
+
 # property -> (technique, level text, level note, design ref)
 CLAIMED = {
     "C17": (
@@ -73,7 +79,7 @@ CLAIMED["C20"] = (
 PARTIAL_NOTE = (" PARTIAL CLAIM: decides the named structural clauses (necessary conditions of the property) for all paths / call "
                 "sites; the behavioural property itself quantifies over runtime values and is not decided by this technique.")
 CLAIMED["C16"] = (
-    "class-scope name resolution of parameter defaults, dead-parameter (def-use order) analysis, sibling and table agreement",
+    "class-scope name resolution of parameter defaults, dead-parameter (def-use order) analysis, sibling and table agreement; abstract evaluation of the index constructors",
     "Static checks of the constructor plumbing: no parameter default captures a class-scope descriptor, no parameter is "
     "overwritten before it is read, the four classmethod constructors agree on resolver call / charge default / forwarded "
     "keywords, the fixed-symmetry classes, utils.from_dense's table and the get_rand / rand_index chains agree with the "
@@ -93,7 +99,7 @@ CLAIMED["C08"] = (
     "DESIGN.md section 2, C08",
 )
 CLAIMED["C10"] = (
-    "sibling agreement (cross-check) of FermionicArray.conj and .dagger by def-use extraction of five ingredients",
+    "sibling agreement (cross-check) of FermionicArray.conj and .dagger by def-use extraction of five ingredients on helper-inlined bodies",
     "Static cross-check: conj and dagger agree on new charge, conjugated labels, odd-global-sign condition, the set of legs the "
     "dual-leg option selects (normalised to original direction by counting .conj() and negations), and apply exactly one kind "
     "of reversal. Found and fixed the complementary leg set of dagger(phase_dual=True)." + PARTIAL_NOTE,
@@ -101,7 +107,7 @@ CLAIMED["C10"] = (
     "DESIGN.md section 2, C10",
 )
 CLAIMED["C13"] = (
-    "dominating-guard analysis for negated-count subscripts; structural checks of the truncation bookkeeping",
+    "dominating-guard analysis (normalised conditions) for negated-count subscripts; abstract interpretation of svd_truncated over shaped tokens for the truncation bookkeeping",
     "Static: every seq[-n] with a runtime count is dominated by a positivity test (seq[-0] wraps to the first element); the "
     "absorb switch is exhaustive and scales each factor along its own bond axis; per-sector counts are produced and consumed in "
     "one insertion order; U, s, VH are truncated with the same count, removed together, and share one new bond table. Found and "
@@ -111,27 +117,37 @@ CLAIMED["C13"] = (
 )
 
 CLAIMED["C05"] = (
-    "dominating-guard analysis of optional sub-index dereferences; structural checks of the extents layout contract",
-    "Static: every `.subinfo.<attr>` dereference is dominated by a not-None test or by the singlet-group guard (validated "
-    "against the plan generator), the three consumers of the extents table traverse it in native order with running-sum "
-    "offsets, the table is filled in sorted sub-sector order from sub-sectors accumulated in permutation order, and fused "
-    "direction / signed charge / insertion position follow the first-axis rule. Found and fixed the concat-strategy crash on "
-    "single-axis groups." + PARTIAL_NOTE,
-    "Where elements land, bit-exact round trips and equality of the two strategies' values are not decided.",
-    "DESIGN.md section 2, C05/C06",
+    "abstract interpretation of fuse (both strategies) / unfuse / unfuse_all by the checker's evaluator over shaped tokens; a normalising "
+    "token algebra turns fused blocks into {window -> source block} maps that are compared with the fused index's own table",
+    "For ~420 (quick) / ~5000 (thorough) array x grouping cases (ranks 2-4, single-axis groups, permuted and non-adjacent axes, "
+    "groups containing already-fused axes, full and three sparse patterns, abelian and fermionic): the fused array has the "
+    "documented axis order, each fused index has the direction of its group's first axis and the original indices as sub-indices, "
+    "fused charges are the signed combinations; EVERY original block lands exactly once, at the window that the fused index's own "
+    "sub-index table assigns to its sub-sector, transposed to the plan's axis order; insert and concat give identical results; the "
+    "stored order of sectors is irrelevant; unfuse_all(fuse(x)) and axis-by-axis unfusing return every original block as itself "
+    "(token identity), extras zero, indices restored; fermionic round trips reproduce the effective signs of the fermionic "
+    "transpose; two arrays differing only in the inner structure of a fused leg do not receive each other's plan within one "
+    "session. Found and fixed the concat-strategy crash on single-axis groups. " + BOUNDED,
+    "Positions inside a window are the backend's row-major reshape of the transposed block (assumed). Bit-exactness of values is "
+    "reduced to token identity of blocks.",
+    "DESIGN.md sections 7 and 11, C05",
 )
 CLAIMED["C06"] = (
-    "def-use / dominance analysis of the fused contraction strategy (unfuse-what-you-fused, align-before-fuse)",
-    "Static: each unfuse of the fused strategy is conditional on the arity of the group the function itself fused (read before "
-    "the axes names are re-bound), right before left; both fuse calls follow drop_misaligned_sectors on the same axes; the "
-    "empty early return matches the blockwise indices/charge; canonical sub-sector order is shared with C05. Found and fixed the "
-    "silent unfusing of a pre-fused free leg." + PARTIAL_NOTE,
-    "Equality of values between strategies is not decided.",
-    "DESIGN.md section 2, C05/C06",
+    "abstract interpretation of all contraction strategies by the checker's evaluator over shaped tokens; structured products detect "
+    "misaligned fused layouts; cross-strategy comparison of pair products, indices and signs; key-set evaluation of the alignment",
+    "For every enumerated operand pair (see C02; plus operands carrying a leg fused beforehand: free on a, free on b, contracted on "
+    "both; abelian and fermionic with pending signs) the fused and auto strategies produce exactly the pair products of the "
+    "definition - the product of two fused matrices multiplies only pieces whose windows along the contracted index coincide and "
+    "whose contracted charges agree, otherwise the block is marked misaligned - and return the same rank, indices (fused-ness of "
+    "every leg included), charge, non-zero sectors and block shapes as blockwise; for fermionic operands all strategies agree on "
+    "the effective sign of every pair product; drop_misaligned_sectors keeps exactly the shared sub-sectors on both operands for "
+    "all 225 pairs of sub-sector sets over two axes. Found and fixed the silent unfusing of a pre-fused free leg. " + BOUNDED,
+    "Equality of values is reduced to the backend's tensordot per block pair (assumed). Fuse strategies insert/concat are compared under C05.",
+    "DESIGN.md sections 7 and 11, C06",
 )
 
 CLAIMED["C19"] = (
-    "provenance analysis of literal term lists (operator site / coefficient site / coordination index); structural checks of the from_edges builders",
+    "symbolic interpretation of the literal term lists (coefficient normal form per operator site); abstract interpretation of the from_edges builders on small graphs",
     "Static: in every local builder an on-site term of site k carries +-X_k / coordinations[k] and two-site terms are not divided; "
     "every from_edges builder counts both ends of every edge once before use and passes coordinations and per-site values in edge "
     "order; the edge factory looks up (a,b) then (b,a); the site description orients sorted edges, shares one index name per bond "
@@ -140,7 +156,7 @@ CLAIMED["C19"] = (
     "DESIGN.md section 2, C19",
 )
 CLAIMED["C04"] = (
-    "exhaustive abstract evaluation of the label comparison over order types; path rule (exchange => sign) on the phased sort",
+    "exhaustive abstract evaluation of the label comparison over order types; path rule (exchange => sign) on the phased sort; must-pass-through rule for resolve_combined_oddpos",
     "Static: FermionicOperator.__lt__/__eq__ are a strict total order for every totally ordered label type (all 13 order types "
     "of three labels x 8 direction assignments); labels are used only through comparisons; on every branch path of the phased "
     "sort an exchange costs exactly one sign, a conjugate pair costs a sign iff ket-then-bra, duplicates raise, the cross-over "
@@ -149,7 +165,7 @@ CLAIMED["C04"] = (
     "DESIGN.md section 2, C04",
 )
 CLAIMED["C18"] = (
-    "path rule (exchange => sign) on the operator sort; structural checks of bra basis and array assembly; constant check of charge maps against literal bases",
+    "path rule (exchange => sign) on the operator sort; exhaustive abstract evaluation of short operator strings against the canonical anticommutation relations; table checks of bases and charge maps",
     "Static: in the phased bubble sort an adjacent exchange costs exactly one sign and the entry accumulates phase * coeff under the "
     "vacuum-pattern test; bra bases are the per-site dagger of the same bases in the same site order; the array is assembled with "
     "duals ket-then-bra, doubled index maps, fermionic=True; the literal charge maps agree with the literal bases (parity / "
@@ -158,7 +174,7 @@ CLAIMED["C18"] = (
     "DESIGN.md section 2, C18",
 )
 CLAIMED["C03"] = (
-    "convention cross-check of all pair-sign sites; def-use check of the permutation; exhaustive abstract evaluation of the Koszul sign function",
+    "abstract interpretation of the sign-inserting operations with the abelian core stubbed (recorded sign primitives vs the single pair-sign convention); exhaustive evaluation of the Koszul sign function",
     "Static: every site inserting the ket-then-bra pair sign (tensordot both branches, matmul, trace, einsum key, qr/svd/eigh/solve) "
     "follows one convention and unclassified direction-dependent sign sites are reported; the permutation used for the sign is the "
     "one applied to the data and the virtual reversal covers exactly the contracted axes; calc_phase_permutation equals the parity "
@@ -168,32 +184,49 @@ CLAIMED["C03"] = (
 )
 
 CLAIMED["C11"] = (
-    "def-use (provenance) analysis of the bond index and block keys in qr/svd/eigh/solve; convention and truncation checks shared with C03/C13",
-    "Static: in qr and svd one bond index flows to the left factor and its conjugate to the right factor, with direction, charge "
-    "table key and size from the column charge / left block column count, (c,c) sectors and the identity charge on the right "
-    "factor; eigh requires the identity charge; solve pairs blocks by row charge and gives the solution the conjugate column index "
-    "and charge b - a; the fermionic wrappers follow the single pair-sign convention; the truncated variant re-indexes both "
-    "factors together." + PARTIAL_NOTE,
+    "abstract interpretation of qr / svd / eigh / solve by the checker's evaluator over shaped tokens (backend factorisations modelled by "
+    "their shapes); sign-convention and truncation semantics shared with C03 / C13",
+    "For every enumerated matrix (Z2, U1, Z2Z2; all four direction patterns; identity and non-identity charge; tall and wide "
+    "blocks; with and without a missing block): both factors are valid arrays; the left factor keeps the row index, the right "
+    "factor the column index; ONE bond index with the direction of the input's column index on the left factor and the opposite "
+    "on the right; one bond charge per input block, keyed by the block's column charge and sized by the factor's column count; "
+    "right factor sectors (c, c) with the identity charge; singular values keyed by column charge; non-matrices are refused; "
+    "eigh refuses charged matrices and keys eigenvalues by column charge; solve pairs blocks by row charge, the solution carries "
+    "the conjugate column index and charge(b) - charge(a). The fermionic wrappers' signs and the truncated variant's joint "
+    "re-indexing are the C03 / C13 rules re-run here. " + BOUNDED + PARTIAL_NOTE,
     "Orthonormality, triangularity, ordering of singular values and reconstruction are numerical and not decided.",
-    "DESIGN.md section 2, C11",
+    "DESIGN.md sections 7 and 11, C11",
 )
 CLAIMED["C01"] = (
-    "table of co-update obligations located by shape (dataflow / structural), several shared with C04, C09, C11, C13",
-    "Static: ten pieces of bookkeeping that must change together are shown to change together at every site: index conjugation "
-    "with charge negation and label conjugation; recursive sub-index conjugation; charge-table and extents filtering; contraction "
-    "result charge; expand_dims / squeeze axis-charge-index consistency and guards; sign-table re-keying; joint truncation of "
-    "factors; shrinking of charge tables wherever sectors are filtered; labels stored on every path; bond index bookkeeping." + PARTIAL_NOTE,
-    "Value-level validity (block shapes vs tables, extents partition a fused index, label parity) stays with the library's run-time check().",
-    "DESIGN.md section 2, C01",
+    "abstract interpretation of the public operations' ASTs by the checker's evaluator over shaped tokens (bounded universe of arrays and "
+    "two-step programs) + an independent validity predicate; semantic rules shared with C04, C09, C11, C13",
+    "Every array returned by ~60 single operations and ~1000 two-step programs (construct, copy, conj, dagger, transpose, scalar "
+    "arithmetic, add/sub, sync_charges, fill_missing_blocks, expand_dims, squeeze, fuse in both strategies, unfuse, unfuse_all, "
+    "reshape, fusing fused axes, conj/transpose of fused arrays, dropping blocks of a fused charge, tensordot in three modes with "
+    "0-3 contracted axes and sparse operands, matmul, trace, einsum, multiply_diagonal, align_axes, qr/svd/svd_truncated/eigh/"
+    "solve, all fermionic sign operations) over symmetries Z2, U1, Z2Z2 (+U1U1, Z4 thorough), ranks 1-4, several direction "
+    "patterns, identity / non-identity charge, full and sparse sector sets, abelian and fermionic, passes the property's validity "
+    "predicate written independently of the library's check(): sector charges combine to the total charge, block shapes equal the "
+    "table sizes, tables sorted with positive sizes, fused indices carry extents that partition them with every sub-sector under "
+    "its signed combination, sign tables name charge-conserving sectors with +-1, label count parity = charge parity. Two genuine "
+    "violations found and recorded as known findings (fermionic expand_dims with an odd charge; solve with an odd matrix). " + BOUNDED,
+    "Not all programs: single operations and two-step programs over the enumerated arrays. Backend functions are modelled by their "
+    "shape behaviour (engine/absarray.py). Anything the evaluator does not understand fails closed (exit 2).",
+    "DESIGN.md sections 7 and 11, C01",
 )
 CLAIMED["C02"] = (
-    "operand-role typing by provenance; exhaustiveness and sibling agreement checks; constant checks of literal axes tables",
-    "Static: in the contraction code every container/index pairing has one operand role (A with A, B with B), the result sector and "
-    "indices are A-left then B-right, the mode switch is exhaustive, the abelian and fermionic entry points normalise axes "
-    "identically, the scalar-result protocol agrees at all sites, and the literal axes tables partition each operand's axes, "
-    "contract last-with-first and cover all key combinations (two matmul rows are selected by no test)." + PARTIAL_NOTE,
-    "The contracted numbers are not decided.",
-    "DESIGN.md section 2, C02",
+    "abstract interpretation of tensordot (3 modes) / matmul / trace / einsum by the checker's evaluator over shaped tokens with a "
+    "normalising token algebra; comparison with the checker's own definition of a block-sparse contraction",
+    "Every result block of every mode normalises to a SET OF PAIR PRODUCTS tensordot(a_block, b_block, paired axes) and equals the set "
+    "given by the definition (a- and b-blocks with equal charges on the contracted axes, filed under a's free charges then b's); "
+    "result charge = combine(a.charge, b.charge); result indices = the operands' free indices; scalar results are the sum or 0.0 "
+    "when nothing aligns; integer, negative, reversed and crossed axes mean what numpy means; unknown modes / unequal axes are "
+    "refused; matmul, trace, tracing and permuting einsum agree with the definition. ~3700 operand pairs x 3 modes (quick), "
+    "~50000 (thorough): Z2, U1 (+Z2Z2, U1U1, Z4), ranks 1-4, 0-3 contracted axes, operands whose present sectors differ, "
+    "pairs with no aligned sector. With the backend's tensordot correct per block pair this is equality with the dense contraction "
+    "on the result's sectors. " + BOUNDED,
+    "Numerical values, dtypes and to_dense are not examined; complex data and the dense comparison itself are outside the technique.",
+    "DESIGN.md sections 7 and 11, C02",
 )
 
 PENDING = "check not built yet (construction in progress; see DESIGN.md section 2 for the planned static rule)"
